@@ -28,7 +28,7 @@ streaming elements, all inputs and all consumer stop points `k`:
                                                                               (`split_none_never_returns`);
 * `Split` hands every result of a block downstream at the clock at which the block was complete
   (before it pulls again) and never buffers more than `bufsize` values        (`split_block_bound`, `split_buffer_bound`);
-  it retains at most `2·bufsize` input values (the block bound to `orig_buf` and the one being read),
+  it retains at most `3·bufsize` input values (the blocks bound to `orig_buf` and `buf`, and the one being read),
   `Count` one, a negative `Slice` `|index|` — `Stage.cap`, the bound the weak-reference oracle of the
   harness uses                      (`split_retention_bound`, `count_held_bound`, `negslice_held_bound`).
 The hypotheses `Stage.WF` and `seqFuelOK` have executable forms (`Stage.wfb`, `seqFuelOKb`, proved
@@ -629,18 +629,22 @@ def CSt.held : CSt α → Nat
 /-- **`count_held_bound`** — `Count.run` keeps exactly one value of look-ahead -/
 theorem count_held_bound (l : CSt α) : l.held ≤ 1 := by cases l <;> simp [CSt.held]
 
-/-- input values `Split.run` retains: the block `orig_buf` is bound to and the block being read -/
-def SSt.held {σb : Type} (l : SSt σb α) : Nat := l.cur.length + l.buf.length
+/-- input values `Split.run` retains: the blocks `orig_buf` and `buf` are bound to (the same list while a
+sequence is active) and the block being read -/
+def SSt.held {σb : Type} (l : SSt σb α) : Nat := l.cur.length + l.last.length + l.buf.length
 
-/-- **`split_retention_bound`** — in every state `Split(…, bufsize=b).run` can reach, both the block bound
-to `orig_buf` and the block under construction have at most `b` values: at most `2·b` input values are
-retained (`Stage.cap`), which is what the weak-reference oracle of the harness allows for a `Split`. -/
+/-- **`split_retention_bound`** — in every state `Split(…, bufsize=b).run` can reach, the block bound to
+`orig_buf`, the block bound to `buf` and the block under construction have at most `b` values each: at
+most `3·b` input values are retained (`Stage.cap`; `2·b` while a sequence is active, because then `buf`
+is `orig_buf`), of which at most `b` — the block under construction — are unprocessed.  This is what the
+weak-reference oracle of the harness allows for a `Split`. -/
 theorem split_retention_bound {σb : Type} (b : Nat) (copyBuf : Bool) (up : Gen σ α) (fu : Nat)
     (brs : List (Lena.C03.Branch σb α)) (s : σ) (t : σ × SSt σb α)
     (h : StepReach (splitStep (some b) copyBuf up fu) (s, splitInit brs) t) :
-    t.2.cur.length ≤ b ∧ t.2.buf.length ≤ b ∧ t.2.held ≤ 2 * b := by
-  have key : t.2.cur.length ≤ b ∧ t.2.buf.length ≤ b := by
-    refine stepReach_invariant _ (fun t => t.2.cur.length ≤ b ∧ t.2.buf.length ≤ b) ?_ (by simp [splitInit]) h
+    t.2.cur.length ≤ b ∧ t.2.last.length ≤ b ∧ t.2.buf.length ≤ b ∧ t.2.held ≤ 3 * b := by
+  have key : t.2.cur.length ≤ b ∧ t.2.last.length ≤ b ∧ t.2.buf.length ≤ b := by
+    refine stepReach_invariant _ (fun t => t.2.cur.length ≤ b ∧ t.2.last.length ≤ b ∧ t.2.buf.length ≤ b) ?_
+      (by simp [splitInit]) h
     rintro ⟨s1, l⟩ t' hI ht
     simp only at hI
     simp only [splitStep] at ht
@@ -657,7 +661,7 @@ theorem split_retention_bound {σb : Type} (b : Nat) (copyBuf : Bool) (up : Gen 
           rw [hn] at ht
           simp only [Step.state?, Option.some.injEq] at ht
           subst ht
-          exact ⟨hI.1, by simp; omega⟩
+          exact ⟨hI.1, hI.2.1, by simp; omega⟩
         | done s' =>
           rw [hn] at ht
           simp only [Step.state?, Option.some.injEq] at ht
@@ -669,9 +673,14 @@ theorem split_retention_bound {σb : Type} (b : Nat) (copyBuf : Bool) (up : Gen 
       simp only [processBlock] at ht
       split at ht
       · simp only [Step.state?, Option.some.injEq] at ht
-        subst ht; exact ⟨hI.2, hI.2⟩
+        subst ht; exact ⟨hI.2.2, hI.2.1, hI.2.2⟩
       · simp only [Step.state?, Option.some.injEq] at ht
-        subst ht; exact ⟨hI.2, by simp⟩
+        subst ht
+        refine ⟨hI.2.2, ?_, by simp⟩
+        simp only
+        split
+        · exact hI.2.1
+        · exact hI.2.2
     | emitting =>
       rw [hph] at ht
       cases hp : l.pending with
@@ -686,7 +695,7 @@ theorem split_retention_bound {σb : Type} (b : Nat) (copyBuf : Bool) (up : Gen 
       rw [hph] at ht
       simp only [Step.state?, Option.some.injEq] at ht
       subst ht; exact hI
-  exact ⟨key.1, key.2, by simp only [SSt.held]; omega⟩
+  exact ⟨key.1, key.2.1, key.2.2, by simp only [SSt.held]; omega⟩
 
 /-- the number of values `_run_negative_islice` holds in its deque -/
 def NSt.held : NSt α → Nat
